@@ -8,7 +8,8 @@ from ..cfg import CFG
 from ..exprnorm import Poly, Rat, norm_test, normalize
 from ..report import Run
 from ..src import AnalysisError, ClassInfo, FuncInfo, Program, call_name, stmt_key, walk_no_nested
-from . import c04, c06
+from . import c01, c04, c06
+from .common import run_as as _as
 
 EXPLANATION = (
     "Writer/reader agreement between the static descriptions and the codec: for every "
@@ -35,25 +36,15 @@ def check(prog: Program, run: Run) -> None:
              "values", floor=4)
     run.rule("C08.R5", "the constant prefix ends at the first parameter that is not constant",
              floor=2)
+    run.rule("C08.R6", "the encoder places the cursor behind a sized object where the static "
+             "length (and the decoder) put it", floor=8)
     _static_lengths(prog, run)
     _size_limits(prog, run)
     _required(prog, run)
     # shared implementations (reported under this property's ids)
     _as(run, "C04.R5", "C08.R4", lambda r: c04._non_settable(prog, r))
     _as(run, "C06.R4", "C08.R5", lambda r: c06._const_prefix(prog, r))
-
-
-def _as(run: Run, src: str, dst: str, fn) -> None:
-    """Run a rule implemented for another property and re-label its instances."""
-    tmp = Run(run.prop, run.tier, "", [])
-    tmp.rule(src, "")
-    fn(tmp)
-    for i in tmp.instances:
-        if i["verdict"] == "holds":
-            run.ok(dst, i["construct"], i["obligation"], i["loc"])
-        else:
-            run.violation(dst, i["construct"], i["aspect"], i["obligation"], i["loc"],
-                          i.get("stmt", ""))
+    _as(run, "C01.R2", "C08.R6", lambda r: c01._positioning(prog, r))
 
 
 def _kw(call: ast.Call, name: str) -> Optional[ast.AST]:
